@@ -93,6 +93,10 @@ class Gen:
                     continue
             if family == 'str':
                 s = r.choice(KEY_STRS)
+                if r.random() < 0.04:
+                    # a key of several hundred characters, most of which the emitter has to escape or quote (limits counted
+                    # in characters of the value on one side and of the written text on the other)
+                    s = r.choice(['\u00e9', '\u043a', "'", 'a', '"', '\\', '\u4e2d', '\u00a0', ' x', '\U0001F600', 'ab-']) * r.choice([130, 200, 300, 520, 700, 1030]) + r.choice(['', 'z'])
                 add(['str', s], s)
             elif family == 'num':
                 x = r.random()
@@ -281,12 +285,19 @@ def generate(seed, tier):
         x = rp.random()
         if x < 0.5:
             primes.append([])
-        elif x < 0.85:
+        elif x < 0.8:
             primes.append([equal_variant(rp, recipe)])
+        elif x < 0.9:
+            # a stream-less dump that fails half-way (the second document cannot be represented) after text was produced
+            primes.append([['fail', equal_variant(rp, recipe) if rp.random() < 0.5 else recipe]])
         else:
             primes.append([Gen(rp, sets=sort_keys, depth=2, width=3).value(0), equal_variant(rp, recipe)])
     case = {'recipe': recipe, 'perms': perms, 'hashseeds': hs, 'opts': opts, 'dumper': dumper, 'junk': r.randrange(0, 2000),
             'multi': g.multi, 'primes': primes}
+    # the neighbours of the value inside one dump_all stream / one document: an ==-equal variant (1 / True / 1.0, 0 / False /
+    # -0.0) or nothing special - the text of the value must depend on its own contents only
+    if rp.random() < 0.6:
+        case['sibling'] = equal_variant(rp, recipe)
     if r.random() < 0.2:
         # document order on load, for a mapping as a person would write it (plain keys that a dumper would quote)
         rh = kernel.rng(seed, 'handdoc')
@@ -367,6 +378,8 @@ def _execute(case):
     req = {'recipe': case['recipe'], 'perms': case['perms'], 'opts': case['opts'], 'dumper': case['dumper']}
     if case.get('handdoc'):
         req['handdoc'] = case['handdoc']
+    if case.get('sibling') is not None:
+        req['sibling'] = case['sibling']
     answers = {}
     primes = case.get('primes') or []
     for i, hs in enumerate(case['hashseeds']):
@@ -502,6 +515,8 @@ def shrink(case):
             yield dict(case, opts={kk: vv for kk, vv in case['opts'].items() if kk != k})
     if case.get('junk'):
         yield dict(case, junk=0)
+    if case.get('sibling') is not None:
+        yield {k: v for k, v in case.items() if k != 'sibling'}
     if case.get('handdoc') and len(case['handdoc']['keys']) > 2:
         hk = case['handdoc']['keys']
         for i in range(len(hk)):
